@@ -427,6 +427,7 @@ CHECKS["C10"] = {
     "technique": "property-based testing of concurrent histories (rapid-generated plans, fault injection by a scripted peer) against history invariants",
     "nontrivial_floor": 20,
     "units": [
+        {"name": "real-dialers", "run": "^TestC10RealDialers$", "kind": "plain"},
         {"name": "regress", "run": "^TestC10Regress$", "kind": "plain"},
         {"name": "histories", "run": "^TestC10Histories$", "kind": "rapid", "checks": {"quick": 640, "thorough": 16000}, "shards": {"quick": 16, "thorough": 16}, "shrinktime": "30s"},
         {"name": "histories-race", "run": "^TestC10Histories$", "kind": "rapid", "race": True, "tiers": ["thorough"], "checks": {"thorough": 1600}, "shards": {"thorough": 8}, "shrinktime": "30s"},
